@@ -146,8 +146,13 @@ def pg_enc(ty, bits, v):
 # ---------------------------------------------------------------------------------------------
 # values
 
+_BV_CACHE = {}
+
+
 def boundary_values(bits):
     """every format's mode boundaries +-1, small values in wide types, full width"""
+    if bits in _BV_CACHE:
+        return _BV_CACHE[bits]
     s = {0, 1, 2, 0x3f, 0x40, 0x41, 0x7f, 0x80, 0x81, 0xff, 0x100, 0x101, (1 << 14) - 1, 1 << 14, (1 << 14) + 1,
          (1 << 15) - 1, 1 << 15, (1 << 30) - 1, 1 << 30, (1 << 30) + 1, (1 << 31) - 1, 1 << 31, (1 << 32) - 1, 1 << 32,
          (1 << 56) - 1, 1 << 56, (1 << 63) - 1, 1 << 63, (1 << 64) - 1, 1 << 64, (1 << 120) - 1, 1 << 120,
@@ -162,7 +167,8 @@ def boundary_values(bits):
     if bits:
         m = 1 << bits
         s |= {m - 1, m - 2, m >> 1, (m >> 1) - 1, (m >> 1) + 1}
-    return sorted(x for x in s if 0 <= x < (1 << bits) or (bits == 0 and x == 0))
+    _BV_CACHE[bits] = sorted(x for x in s if 0 <= x < (1 << bits) or (bits == 0 and x == 0))
+    return _BV_CACHE[bits]
 
 
 def struct_value(rng, bits):
